@@ -138,6 +138,7 @@ type compositeOracle struct {
 	w     *World
 	parts []Part
 	// hooks
+	afterStep  func(e *Engine, st *StepRec) *Violation
 	onQuiesced func(e *Engine) *Violation
 	onClosed   func(e *Engine) *Violation
 	finishStats func(st *CaseStats)
@@ -176,6 +177,16 @@ func clientMayMessage(m wamp.Message) bool {
 }
 
 func (o *compositeOracle) OnStep(e *Engine, st *StepRec) *Violation {
+	if v := o.onStep(e, st); v != nil {
+		return v
+	}
+	if o.afterStep != nil {
+		return o.afterStep(e, st)
+	}
+	return nil
+}
+
+func (o *compositeOracle) onStep(e *Engine, st *StepRec) *Violation {
 	w := o.w
 	w.now = st.T
 	exp := Exp{}
